@@ -444,6 +444,7 @@ def session_line(res, max_redirects, use_jar, factory_pairs, login, method, prox
     toks = ['request', op]
     if tries is not None:
         toks.append(str(tries))
+        toks.append(enc(res.get('rejects', [])))
     toks += [str(max_redirects), 'T' if proxy else 'F', 'T' if use_jar else 'F', fields_token(factory_pairs),
              enc(method), fields_token(res['init_pairs']), enc((login or ('', ''))[0] or ''),
              enc((login or ('', ''))[1] or ''), url_token(urlc(res['init_url'])),
@@ -518,6 +519,16 @@ def run_crawl(url, replies, tries, max_redirects, login=None, timeout=120):
         def new_cache(cls):
             return None
 
+    from wpull.processor.rule import FetchRule
+    rejects = []
+
+    class LogFetchRule(FetchRule):
+        def check_subsequent_web_request(self, item_session, is_redirect=False):
+            verdict, reason = super().check_subsequent_web_request(item_session, is_redirect=is_redirect)
+            if not verdict:
+                rejects.append(len(script.log))
+            return verdict, reason
+
     net = fakenet.FakeNet()
     net.default = lambda: ScriptServer(script)
     tmp = tempfile.mkdtemp(prefix='c18-')
@@ -535,6 +546,7 @@ def run_crawl(url, replies, tries, max_redirects, login=None, timeout=120):
             b.factory.class_map['Resolver'] = Res
             b.factory.class_map['URLTable'] = LogTable
             b.factory.class_map['RedirectTracker'] = LogTracker
+            b.factory.class_map['FetchRule'] = LogFetchRule
             app = b.build()
 
             async def go():
@@ -588,4 +600,4 @@ def run_crawl(url, replies, tries, max_redirects, login=None, timeout=120):
         mreplies.append((st, bool(loc), kind, c))
     from wpull.url import URLInfo
     return {'visits': visits, 'events': events, 'hops': list(script.log), 'mreplies': mreplies, 'exit': exit_code,
-            'hung': hung, 'answers': [], 'init_pairs': [], 'init_url': URLInfo.parse(url)}
+            'hung': hung, 'rejects': rejects, 'answers': [], 'init_pairs': [], 'init_url': URLInfo.parse(url)}
